@@ -100,7 +100,10 @@ where
             .filter_map(|entry| {
                 let path = entry.ok()?.path();
                 let s = Stamp::from(path.file_name()?.to_str()?.parse::<u64>().ok()?);
-                if s < stamp {
+                // Keep only the history of the state being committed from: records at or above
+                // the new stamp, and records above the current stamp (left behind by commits
+                // that were rolled back since), belong to an abandoned future.
+                if s < stamp && s <= self.header.stamp() {
                     Some((s, path))
                 } else {
                     let _ = fs::remove_file(&path);
